@@ -247,6 +247,11 @@ def ovl_cases(universe, nlayers, props_, seed, ncfg=None, k1_ops=None, k2=0, k3=
                 for v1 in present:
                     o2, v2 = rng.choice(overlay.HIST_OPS + overlay.TIME_OPS), rng.choice([v1] + real)
                     hs.append([(o1, v1), (o2, v2)])
+        # nodes that the universe declares file-only (the *_wo names of UOW) are never made directories by a history either:
+        # a directory named <stem>_wo collides with the marker of <stem> by construction of the marker scheme (reserved name)
+        fonly = {n.var for n in u.nodes if tuple(n.kinds) == ('f',)}
+        if fonly:
+            hs = [h_ for h_ in hs if not any(st_[0] in ('create_dir', 'create_dir_all') and st_[1] in fonly for st_ in h_)]
         cases.append({'universe': universe, 'nlayers': nlayers, 'cfg': cfg, 'histories': hs, 'props': props_, 'layer_kind': layer_kind, 'tag': tag})
     return cases
 
